@@ -195,8 +195,8 @@ class SqwBuilder:
             data_range=np.vstack(
                 [
                     (
-                        sc.to_unit(row.min(), unit).value,
-                        sc.to_unit(row.max(), unit).value,
+                        row.min().to(unit=unit, dtype='float64').value,
+                        row.max().to(unit=unit, dtype='float64').value,
                     )
                     for row, unit in zip(
                         pix_wrap.row_data, pix_wrap.row_units, strict=True
@@ -452,7 +452,11 @@ class _PixWrap:
             for i_row, (row, unit) in enumerate(
                 zip(self.row_data, self.row_units, strict=True)
             ):
-                buffer[:n, i_row] = sc.to_unit(
-                    row[offset : offset + chunk_size], unit, copy=False
-                ).values
+                # Convert to floating point first: scipp converts integers
+                # in integer arithmetic, which rounds (or overflows).
+                buffer[:n, i_row] = (
+                    row[offset : offset + chunk_size]
+                    .to(unit=unit, dtype='float64', copy=False)
+                    .values
+                )
             sqw_io.write_array(buffer[:n])
